@@ -7,6 +7,11 @@ import "net"
 // Exports of unexported pure functions for the verification harness. This
 // file lives in /verif and is copied into the scratch build tree only.
 
+// VerifExportAvailable tells the harness that the exports below are real.
+// (When this file does not compile against a changed tree the driver falls
+// back to harness/export_stub, where they are inert.)
+const VerifExportAvailable = true
+
 // VerifEncodeValue exposes encodeValue.
 func VerifEncodeValue(packet net.Buffers, seqNo uint64) net.Buffers { return encodeValue(packet, seqNo) }
 
